@@ -52,6 +52,19 @@ fn main() {
     let args = parse_args();
     let rep: Arc<Report> =
         Report::new(&args.prop.to_uppercase(), &args.tier, args.seed, args.report.clone(), args.replay.is_some());
+    // a replay runs outside the parallel runner and its watchdog: give it one of its own (a case
+    // that hangs - e.g. a multi-thread encode whose worker died - must end as a report, not as a
+    // stuck process)
+    if let Some(path) = args.replay.clone() {
+        let rep2 = Arc::clone(&rep);
+        std::thread::spawn(move || {
+            std::thread::sleep(std::time::Duration::from_secs(240));
+            let case = std::fs::read_to_string(&path).ok().and_then(|s| serde_json::from_str::<serde_json::Value>(&s).ok()).and_then(|v| v.get("case").cloned()).unwrap_or(serde_json::Value::Null);
+            rep2.violation_conclusive("hang", "no result within 240 s while replaying the case", case, 0);
+            rep2.emit();
+            std::process::exit(rep2.exit_code());
+        });
+    }
     // safety net: a panic of the subject outside a guarded call is an observation, any other is a machinery error
     let known = match panicx::catch(|| props::dispatch(&args, &rep)) {
         Ok(k) => k,
